@@ -19,13 +19,16 @@ SHARED = [
 class C11(HistProp):
     id = 'C11'
     module = 'Cbor.Props.C11'
-    theorems = ['Props.C11.C11_source_intact', 'Props.C11.C11_books', 'Props.C11.copy_scalar', 'Props.C11.copy_string', 'Props.C11.copy_leaf_source_intact',
-                'Heap.copy_frame_all', 'Heap.copy_counts_all']
+    theorems = ['Props.C11.C11_copy', 'Props.C11.C11_copy_denotes', 'Props.C11.C11_same_bytes', 'Props.C11.C11_copy_counts_one', 'Props.C11.C11_release_copy',
+                'Props.C11.C11_release_source', 'Props.C11.C11_source_intact', 'Props.C11.C11_books', 'Props.C11.copy_scalar', 'Props.C11.copy_string',
+                'Props.C11.copy_leaf_source_intact', 'Heap.copy_spec', 'Heap.decref_own', 'Heap.need_le_copyFuel', 'Heap.decref_below', 'Heap.copy_frame_all', 'Heap.copy_counts_all']
     trusted_base = BASE_TRUST + HEAP_TRUST + [
-        'theorems: source (and every other pre-existing item) untouched whether the copy succeeds or fails, under any allocator oracle; copy built from new items only; '
-        'reference-count invariant after the copy; exact result for leaves.  That the copy denotes the same value as the source for containers, tags and chunked strings, and '
-        'that every node of it has count 1, is decided by the correspondence (the model copies recursively with the same requests, counts and capacities) and by the harness: '
-        'address-set disjointness, refcount 1 on every node, no node twice, equal dump and serialization, mutate / release one tree and re-inspect the other',
+        'theorems (for every tree, every acyclic heap in which the source denotes it, every allocator oracle): a successful copy is an exclusively owned tree denoting the '
+        'same tree (types, widths, flavour, chunking, member order), laid out in exactly the cells the copy created, every node with count one (C11_copy / copy_spec, a mutual '
+        'structural induction over the tree with all clean-up paths); a failed copy has released every cell it created; no pre-existing cell changes; releasing the copy restores the '
+        'heap exactly, releasing the source leaves the copy untouched (decref_own, decref_below); the model\'s fuel suffices for acyclic heaps (need_le_copyFuel).  The heap model itself '
+        '(Heap.copy mirrors cbor_copy case by case) is tied to the C code by the history correspondence and the harness: address-set disjointness, refcount 1 on every node, no node twice, '
+        'equal dump and serialization, mutate / release one tree and re-inspect the other',
     ]
     rule = ('trees: the C03 corpus (all leaf kinds at boundary values incl. maximal-width integers, empty containers, zero-chunk indefinite strings, nesting to depth 4) '
             'loaded from their encodings, plus hand-built trees with shared sub-items, partially filled definite containers and NaN payloads, plus random API histories '
